@@ -68,6 +68,7 @@ type Enc struct {
 	topDerefs  map[string]derefVar
 	countHits  map[string]int
 	loopOrd    map[*ssa.BasicBlock]int
+	noPreserve map[string]bool // keys exempt from havoc_preserves during the havoc of one contracted call
 }
 
 func (x *Enc) note(s string) { x.notes[s] = true }
@@ -230,6 +231,23 @@ func (x *Enc) encodeTop() {
 		for _, cs := range x.con.Counts {
 			if x.countHits[cs[0]] == 0 {
 				x.addObl("vacuity", fmt.Sprintf("%s.count[%s].matches_a_call_site", shortFn(fn), cs[0]), "count pattern "+cs[1]+" matches no call in the function", token.NoPos, "true", "false")
+			}
+		}
+	}
+	// a havoc_preserves pattern that names no heap key preserves nothing (harmless, but usually a typo: the key
+	// carries the package name, not the import alias)
+	if x.con != nil {
+		for _, tn := range x.con.HavocPreserves {
+			hit := false
+			for k := range x.keys {
+				if strings.HasPrefix(tn, "key:") {
+					hit = hit || strings.HasPrefix(k, tn[4:])
+				} else if (strings.HasPrefix(k, "F:") || strings.HasPrefix(k, "P:")) && strings.Contains(k, tn+":") {
+					hit = true
+				}
+			}
+			if !hit {
+				x.note("havoc_preserves " + tn + " matches no heap key")
 			}
 		}
 	}
